@@ -66,6 +66,7 @@ inductive Out where
   | lcpreq (sid m : Nat) | lcpack (sid m : Nat) | lcptack (sid m : Nat) | lcperep (sid m : Nat)
   | papack (sid m : Nat) | papnak (sid m : Nat)
   | ipcpreq (sid m : Nat) | ipcpack (sid m : Nat) | ipcpnak (ip : Option Nat) (sid m : Nat)
+  | ipcprej (sid m : Nat)    -- Configure-Reject of the IP-Address option: no address could be assigned to the session
   deriving Repr, DecidableEq
 
 /-- NewIPPool on 10.77.0.0/bits with gateway .1: every host after the network address except the gateway
@@ -160,7 +161,8 @@ def step (s : Srv) : In → Srv × List Out
       if !x.authed then (s, [])      -- the guard added by the fix for D15
       else
         match k with
-        | .creqIp => (s, [if x.ip.isSome then .ipcpnak x.ip sid x.mac else .ipcpack sid x.mac])
+        -- a session without an assigned address (pool exhausted) may not pick its own: the option is rejected (fix D65)
+        | .creqIp => (s, [if x.ip.isSome then .ipcpnak x.ip sid x.mac else .ipcprej sid x.mac])
         | .creqDns => (s, [.ipcpnak none sid x.mac])
         | .creqNone => (s, [.ipcpack sid x.mac])
         | .cack => (setSess s sid { x with state := .est }, [])
